@@ -28,6 +28,7 @@ from vlib import *
 from modcorpus import *
 from c14_util import *
 import c14x_layer
+import c14w_layer
 
 
 # ------------------------------------------------------------------ main
@@ -148,7 +149,7 @@ def main(tier):
             for i, d in enumerate(h["parsed"][:-1]):
                 if h.get("fail_ops") is not None and i not in h["fail_ops"]:
                     continue
-                if d["op"] in ("dec", "decr", "enc", "mrt") and int(d.get("a", "0")) > 0 and "skip" not in d:
+                if d["op"] in ("dec", "decr", "enc", "mrt", "nb", "unb", "xeq") and int(d.get("a", "0")) > 0 and "skip" not in d:
                     for k in ks_for(r, int(d["a"]), tier):
                         reps.append({"h": h, "i": i, "k": k, "ops": with_fail(h["ops"], i, k)})
         ro, exits2 = chunked(m["exe"], ["hist %s %s" % (x["h"]["case"]["tn"], ";".join(x["ops"])) for x in reps])
@@ -165,6 +166,13 @@ def main(tier):
         xunits = []
     tlog("c14x layer built: %d modules, %d histories" % (len(xunits), sum(len(hs) for _, hs in xunits)))
     units += xunits
+    try:
+        wunits = [] if os.environ.get("C14W_OFF") else c14w_layer.units(run, tier, model)
+    except (BuildError, RuntimeError) as e:
+        run.violation("build", {"what": "c14w layer: " + str(e)[-2500:]}, no_input=True)
+        wunits = []
+    tlog("c14w layer built: %d modules, %d histories" % (len(wunits), sum(len(hs) for _, hs in wunits)))
+    units += wunits
     pool = ThreadPoolExecutor(max_workers=NCPU)
     with ThreadPoolExecutor(max_workers=len(units) or 1) as ex:
         results = list(ex.map(work, units))
@@ -200,7 +208,8 @@ def main(tier):
             c = h["case"]
             line = "hist %s %s" % (c["tn"], ";".join(x["ops"]))
             run.case(line)
-            run.count("allocfail_%s_%s%s" % (h["parsed"][x["i"]]["op"], h["ops"][x["i"]].split(":")[-1 if h["parsed"][x["i"]]["op"] == "mrt" else 1], "_x" if h.get("layer") else ""))
+            o0 = h["ops"][x["i"]].split(":")
+            run.count("allocfail_%s_%s%s" % (h["parsed"][x["i"]]["op"], o0[-1 if h["parsed"][x["i"]]["op"] == "mrt" else 1] if len(o0) > 1 else "-", "_x" if h.get("layer") else ""))
             rep = {"module": m["text"], "asn1c_opts": " ".join(m.get("opts", ("-fcompound-names",))), "type": c["tn"], "model_type": c["ts"], "value": c["vs"], "history": h["kind"], "command_line": line,
                    "failing_op_index": x["i"], "failing_allocation": x["k"], "allocations_of_op": int(h["parsed"][x["i"]]["a"]),
                    "replay_cmd": "echo '%s' | <moddrv of the module built with %s and MODDRV_EXTRA=harness/moddrv_c14.inc>" % (line, WRAP[0])}
@@ -215,6 +224,8 @@ def main(tier):
     tlog("oracle done")
     if not os.environ.get("C14X_NOPOST"):        # (development switch: the C-side oracle alone)
         c14x_layer.post(run, results, model)
+    if not os.environ.get("C14W_NOPOST"):
+        c14w_layer.post(run, results, model)
     tlog("c14x faithfulness done")
     if os.environ.get("C14_DUMP"):
         json.dump(run.violations, open(os.environ["C14_DUMP"], "w"), indent=1)
